@@ -1008,4 +1008,9 @@ def r14(k: Kit) -> None:
                       g.describe_path(bad) if bad else None)
     rep.floor('C09.R14', 'channel task coroutines', len(tasks), 3)
     rep.floor('C09.R14', 'awaits in channel tasks', n_aw, 3)
-
+    from .shared import share
+    from .c07 import r8 as _c07r8
+    share(k, 'C09.R17', 'data that arrives after a local close is discarded (= C07.R8 accept table): otherwise it can re-pause the channel behind the peer\'s CLOSE and the channel never finishes', _c07r8)
+    from .shared import water_mark_table
+    rep.rule('C09.R18', 'drain() returns once everything was sent (= C08.R9 water mark table): with a low-water mark of 0 the writer is resumed when the buffer is empty')
+    water_mark_table(k, 'C09.R18')
